@@ -65,7 +65,7 @@ def declare(spec):
       current_time="time", network="obj:Network", NodeTypes="list:NodeTypes", ArrivalNodeType="fn",
       ExitNodeType="fn", IndividualType="fnconst:Individual", ServerType="fnconst:Server", name="str",
       deadlock_detector="obj:NoDetection", inter_arrival_times="dict:DistByNode",
-      service_times="dict:ServDistByNode", batch_sizes="dict:DistByNode", number_of_priority_classes="int",
+      service_times="dict:ServDistByNode", batch_sizes="dict:ServDistByNode", number_of_priority_classes="int",
       transitive_nodes="list:TNodes", nodes="list:Nodes", active_nodes="list:ActiveNodes",
       routers="dict:Routers", statetracker="obj:StateTracker", times_dictionary="dict:Times",
       times_to_deadlock="dict:Times", unchecked_blockage="bool", progress_bar="val", all_records="val")
